@@ -21,7 +21,8 @@ RULE = ('Generated (start, end, pre_market, post_market) with end time-of-day >=
         'distinct case JSON; non-trivial = the range spans a weekend with >=2 business days, or is a single day, '
         'or has no business day, or crosses a month/year/leap-day boundary, or is an end<start rejection.'
         " Round-10 reach: flags passed positionally (`flags_how='positional'`)."
-        " Round-11 reach: `peek_first` (the first event is looked at before the full pass); for ranges in other zones an engine over the same instants written in UTC is built and listed first.")
+        " Round-11 reach: `peek_first` (the first event is looked at before the full pass); for ranges in other zones an engine over the same instants written in UTC is built and listed first."
+        " Round-13 reach: ranges in Asia/Jerusalem around a Friday clock change (26 March 2021).")
 ASSUMPTIONS = [
     'UTC-aware pandas Timestamps as in every documented example',
     'end time-of-day is not before the start time-of-day (the property\'s stated domain)',
@@ -164,10 +165,15 @@ def cases(draw):
         return case
     if start[0] >= 1990 and draw(st.sampled_from([False] * 5 + [True])):
         # the same instants written in another zone; times of day chosen so that the local and the UTC calendar day agree
-        tz = draw(st.sampled_from(['America/New_York', 'Asia/Tokyo', 'Europe/London']))
+        tz = draw(st.sampled_from(['America/New_York', 'Asia/Tokyo', 'Europe/London', 'Asia/Jerusalem']))
         # the range's days are the calendar days of the timestamps as written (never an hour a clock change can make
         # ambiguous or skip)
-        lo, hi = {'America/New_York': (4, 23), 'Asia/Tokyo': (0, 23), 'Europe/London': (4, 23)}[tz]
+        lo, hi = {'America/New_York': (4, 23), 'Asia/Tokyo': (0, 23), 'Europe/London': (4, 23), 'Asia/Jerusalem': (4, 23)}[tz]
+        if tz == 'Asia/Jerusalem':
+            # (a zone whose clocks change on a Friday: 26 March 2021 lies inside the range)
+            d_ = D.date(2021, 3, draw(st.integers(15, 26)))
+            e_ = D.date(2021, 3, 26) + D.timedelta(days=draw(st.integers(0, 12)))
+            start, end = [d_.year, d_.month, d_.day] + start[3:], [e_.year, e_.month, e_.day] + end[3:]
         h0 = draw(st.integers(lo, hi))
         h1 = draw(st.integers(h0, hi))
         case['start'] = start[:3] + [h0, draw(st.sampled_from([0, 30])), 0]
